@@ -67,6 +67,7 @@ func (c *candidate) startElection() {
 			go func(ch chan<- rpcResponse) {
 				resp := &voteResp{}
 				err := pool.doRPC(req, resp, deadline)
+				verifPointR(c.Raft, "vote.result")
 				ch <- rpcResponse{resp, pool.nid, err}
 			}(c.respCh)
 		}
